@@ -21,6 +21,8 @@ WEIGHTS = dict(
     sort_legcharge=4, iadd=6, add=3, sub=2, iadd_op=2, isub_op=1, ibinary=3, binary=2,
     combine=6, as_completely_blocked=1, split=5, concatenate=3, outer=3, tensordot=8, trace=3,
     inner=1, getitem=3, setitem_npc=2, malformed=2,
+    # factorizations (oracle-only steps) and multi-step plans around them
+    svd=4, qr=2, lq=1, pinv=1, eigh=1, eig=1, expm=1, plan_fact=12, plan_gram=3,
 )
 
 
@@ -100,7 +102,24 @@ def contractible_pairs(a, b, same):
     return out
 
 
+def finish(Hh, rng, st):
+    if len(Hh.env) >= MAX_LIVE and 'out' in st and rng.random() < 0.8:
+        # forget one tensor afterwards (keeps the state small); not one the running plan still needs
+        c = [n for n in names(Hh) if n not in Hh.protect.values()] if Hh.plan else names(Hh)
+        if c:
+            st['drop'] = rng.choice(c)
+    return st
+
+
 def gen_step(Hh, rng):
+    while Hh.plan:   # a multi-step plan (see plan_fact) is running: its next step, generated from the state of NOW
+        f = Hh.plan.pop(0)
+        st = f(Hh, rng)
+        if st is None:
+            Hh.plan = []
+            break
+        return finish(Hh, rng, st)
+    Hh.protect = {}
     ops = list(WEIGHTS)
     w = [WEIGHTS[o] for o in ops]
     for _ in range(40):
@@ -108,9 +127,7 @@ def gen_step(Hh, rng):
         st = GEN[op](Hh, rng)
         if st is not None:
             st.setdefault('op', op)
-            if len(Hh.env) >= MAX_LIVE and 'out' in st and rng.random() < 0.8:
-                st['drop'] = rng.choice(names(Hh))   # forget one tensor afterwards (keeps the state small)
-            return st
+            return finish(Hh, rng, st)
     return dict(op='copy', a=names(Hh)[0], out=Hh.fresh(), deep=True)
 
 
@@ -736,6 +753,276 @@ def _(Hh, rng):
     if not ok:
         return None
     return dict(a=n, b=m, inds=[rng.choice(ok)] + [dict(s=[None, None, None])] * (a.rank - 1))
+
+
+# ------------------------------------------------------------------------------------------------------------------
+# factorizations. Oracle-only steps (no model line): the factors are kept in the environment, inspected by the
+# model-free oracle after this and every later step, and used as operands of later (modelled) steps.
+# Not generated: svd(full_matrices=True), qr/lq(mode='complete', cutoff=...)  (known upstream issues, C05's subject)
+
+def n_compatible(a):
+    """number of block positions compatible with qtotal, from the legs only (the number of STORED blocks may depend on
+    the kernel configuration: prefactor 0, explicit zero blocks); 99 if the grid is large"""
+    mods = [int(m) for m in a.chinfo.mod]
+    qt = [int(x) for x in a.qtotal]
+    n = 1
+    for l in a.legs:
+        n *= max(int(l.block_number), 1)
+    if n > 3000:
+        return 99
+    cnt = 0
+    for r in itertools.product(*[range(int(l.block_number)) for l in a.legs]):
+        tot = [sum(int(l.charges[qi][k]) * int(l.qconj) for qi, l in zip(r, a.legs)) for k in range(len(mods))]
+        if valid(mods, tot) == qt and all(l.slices[qi + 1] > l.slices[qi] for qi, l in zip(r, a.legs)):
+            cnt += 1
+    return cnt
+
+
+def fact_ok(a):
+    # not generated: matrices that cannot have a block ('SVD found no singular values'). The dtype is NOT looked at
+    # (for tensors without blocks it depends on the kernel configuration, C04): see c02_ops.run_fact
+    return a.rank == 2 and 0 < size(a) <= MAX_SIZE and has_blocks(a) and n_compatible(a) > 0
+
+
+def square_ok(a, op=None):
+    return fact_ok(a) and all(int(x) == 0 for x in a.qtotal) and legs_equal(a.legs[0], a.legs[1].conj())
+
+
+def inner_labels(a, rng):
+    c = [l for l in ['vR', 'vL', 'u', 'w'] if l not in a._labels]
+    if rng.random() < 0.5 or len(c) < 2:
+        return [None, None]
+    return rng.sample(c, 2)
+
+
+def rand_q(a, rng):
+    return [rng.randint(-2, 3) for _ in a.chinfo.mod]
+
+
+def fact_step(Hh, rng, op, n):
+    """arguments of the factorization `op` of the matrix named `n`"""
+    a = Hh.env[n]
+    st = dict(op=op, a=n, out=Hh.fresh())
+    if op in ('svd', 'qr', 'lq'):
+        st['out2'] = Hh.fresh()
+        st['labels'] = inner_labels(a, rng)
+        st['inner_qconj'] = rng.choice([1, 1, -1])
+    if op == 'svd':
+        r = rng.random()
+        qL = qR = None
+        if r < 0.2:
+            qL = rand_q(a, rng)
+        elif r < 0.4:
+            qR = rand_q(a, rng)
+        elif r < 0.5:
+            qL = rand_q(a, rng)
+            qR = [int(x) - y for x, y in zip(a.qtotal, qL)]
+        st.update(cutoff=rng.choice([None, None, None, 1.e-8, 0.3]), qL=qL, qR=qR)
+    elif op in ('qr', 'lq'):
+        mode = 'complete' if rng.random() < 0.15 else 'reduced'
+        st.update(mode=mode, cutoff=None if mode == 'complete' else rng.choice([None, None, 1.e-8]),
+                  pos_diag=rng.random() < 0.4, qQ=rand_q(a, rng) if rng.random() < 0.4 else None)
+    elif op == 'eigh':
+        st.update(UPLO=rng.choice(['L', 'U']), sort=rng.choice([None, None, 'm>', '<', '>']))
+    elif op == 'eig':
+        st.update(sort=rng.choice([None, None, 'm>', 'm<']))
+    elif op == 'pinv':
+        st.update(cutoff=rng.choice([1.e-8, 1.e-6]))
+    return st
+
+
+def qr_ok(a):
+    # qr / lq of a matrix with a zero-size block return Q, R whose `_qdata` lost the rows of the empty blocks while
+    # `_data` kept them (upstream defect, pending_fixes/C02-qr-zero-size-block.diff, notes/C02.md): not generated
+    return fact_ok(a) and no_zero_blocks(a)
+
+
+def gen_fact(op):
+    def f(Hh, rng):
+        n = pick(Hh, rng, (lambda a: square_ok(a, op)) if op in ('eigh', 'eig', 'expm') else
+                 qr_ok if op in ('qr', 'lq') else fact_ok)
+        return n and fact_step(Hh, rng, op, n)
+    return f
+
+
+for _op in ('svd', 'qr', 'lq', 'pinv', 'eigh', 'eig', 'expm'):
+    GEN[_op] = gen_fact(_op)
+
+
+def p_disorder(P):
+    """a step after which the block list of the matrix is typically NOT lexsorted (flag correctly False): what a
+    factorization receives in real programs after itranspose / iswapaxes / permute"""
+    def f(Hh, rng):
+        n = P['t']
+        if n not in Hh.env or Hh.env[n].rank != 2:
+            return None
+        a = Hh.env[n]
+        r = rng.random()
+        if r < 0.4:
+            return dict(op='itranspose', a=n, axes=rng.choice([[1, 0], [1, 0], [-1, 0], None]), lab=rng.random() < 0.5)
+        if r < 0.65:
+            i, j = rng.choice([(0, 1), (1, 0), (-1, 0), (0, -1), (-2, -1)])
+            return dict(op='iswapaxes', a=n, i=i, j=j)
+        if r < 0.85:
+            P['t'] = Hh.fresh()
+            return dict(op='transpose', a=n, out=P['t'], axes=rng.choice([[1, 0], None]), lab=rng.random() < 0.5)
+        ax = rng.randrange(2)
+        p = list(range(int(a.shape[ax])))
+        rng.shuffle(p)
+        P['t'] = Hh.fresh()
+        return dict(op='permute', a=n, out=P['t'], perm=p, axis=ax)
+    return f
+
+
+def p_factor(P, ops):
+    def f(Hh, rng):
+        n = P['t']
+        if n not in Hh.env or not fact_ok(Hh.env[n]):
+            return None
+        op = rng.choice(ops)
+        if op in ('eigh', 'eig', 'expm') and not square_ok(Hh.env[n], op):
+            op = 'expm' if square_ok(Hh.env[n]) else 'svd'
+        if op in ('qr', 'lq') and not qr_ok(Hh.env[n]):
+            op = 'svd'
+        st = fact_step(Hh, rng, op, n)
+        P['f1'], P['f2'] = st['out'], st.get('out2', st['out'])
+        return st
+    return f
+
+
+def p_consume(P):
+    """a modelled step that TRUSTS the claims of a factor (sortedness flag, legs): sort, addition with a tensor of
+    another block structure, contraction of the two factors, split of the pipe the factor inherited"""
+    def f(Hh, rng):
+        f1, f2 = P.get('f1'), P.get('f2')
+        if f1 not in Hh.env or f2 not in Hh.env:
+            return None
+        x = rng.choice([f1, f2, f2])
+        a = Hh.env[x]
+        r = rng.random()
+        if r < 0.2:
+            return dict(op='isort_qdata', a=x)
+        if r < 0.55 and size(a) <= MAX_SIZE and all(l.block_number > 0 for l in a.legs):
+            P['z'] = Hh.fresh()
+            Hh.plan.insert(0, p_add(P, x))
+            return dict(op='mk_like', a=x, out=P['z'], dseed=rng.randrange(10 ** 6), dtype=rng.choice(['float64', 'complex128']))
+        if r < 0.8 and f1 != f2:
+            u, v = Hh.env[f1], Hh.env[f2]
+            if size(u) * size(v) // max(1, int(u.shape[1])) ** 2 <= MAX_SIZE and contractible_pairs(u, v, False).count((1, 0)):
+                return dict(op='tensordot', a=f1, b=f2, out=Hh.fresh(), axes=rng.choice([1, [[1], [0]]]), lab=rng.random() < 0.5)
+        if any(is_pipe(l) for l in a.legs):
+            st = GEN['split'](SubEnv(Hh, [x]), rng)
+            if st is not None:
+                st['op'] = 'split'
+                return st
+        return dict(op='isort_qdata', a=x)
+    return f
+
+
+def p_add(P, x):
+    def f(Hh, rng):
+        z = P.get('z')
+        if x not in Hh.env or z not in Hh.env or z not in addable(Hh, x):
+            return None
+        op = rng.choice(['add', 'iadd', 'sub', 'binary'])
+        st = dict(op=op, a=x, b=z, valid=True)
+        if op != 'iadd':
+            st['out'] = Hh.fresh()
+        else:
+            st['p'] = rng.choice([1.0, -1.0, 2.0, 0.5])
+        if op == 'binary':
+            st['f'] = rng.choice(['add', 'sub'])
+        return st
+    return f
+
+
+class SubEnv:
+    """view of a history restricted to some tensors (to reuse a step generator for a given operand)"""
+
+    def __init__(self, Hh, keep):
+        self._H = Hh
+        self.env = {n: Hh.env[n] for n in keep}
+
+    def __getattr__(self, k):
+        return getattr(self._H, k)
+
+
+def combine2(Hh, rng, n):
+    """combine_legs of ALL legs of `n` into two pipes: a matrix"""
+    a = Hh.env[n]
+    r = a.rank
+    axes = list(range(r))
+    rng.shuffle(axes)
+    k = rng.randint(1, r - 1)
+    groups = [axes[:k], axes[k:]]
+    for grp in groups:
+        if rng.random() < 0.6:
+            grp.sort()
+        nb = 1
+        for x in grp:
+            nb *= max(1, int(a.legs[x].block_number))
+        if nb > 150:
+            return None
+    if not combine_labels_ok(a, groups):
+        return None
+    new_axes = rng.choice([None, None, [0, 1], [1, 0], [-1, 0]])
+    # two pipes of the SAME direction pair sector c with sector q-c: increasing rows meet decreasing columns, so a
+    # transposition leaves the block list unsorted
+    c = rng.choice([1, -1])
+    qconjs = [c, c] if rng.random() < 0.6 else [rng.choice([None, 1, -1]) for _ in groups]
+    return dict(op='combine', a=n, out=Hh.fresh(), groups=groups, new_axes=new_axes, qconjs=qconjs,
+                lab=rng.random() < 0.5, flat=False)
+
+
+@g('plan_fact')
+def _(Hh, rng):
+    """[combine_legs to a matrix] -> [operation leaving the block list unsorted] -> factorization -> step trusting
+    the factors.  Returns the first step and queues generators of the others."""
+    ok = lambda a: a.rank >= 2 and 0 < size(a) <= MAX_SIZE and has_blocks(a)  # noqa: E731
+    # mostly tensors with room for several blocks: the matrix then has several charge sectors whose order matters
+    n = (rng.random() < 0.85 and pick(Hh, rng, lambda a: ok(a) and n_compatible(a) >= 2)) or pick(Hh, rng, ok)
+    if not n:
+        return None
+    a = Hh.env[n]
+    P = Hh.protect = dict(t=n)
+    ops = ['svd'] * 6 + ['qr', 'qr', 'lq', 'pinv']
+    plan = ([p_disorder(P)] if rng.random() < 0.85 else []) + [p_factor(P, ops), p_consume(P)]
+    if rng.random() < 0.4:
+        plan.append(p_consume(P))
+    if a.rank > 2 or not all(l.is_blocked() for l in a.legs):   # (a matrix with unblocked legs: one-leg pipes)
+        first = combine2(Hh, rng, n)
+        if first is None:
+            return None
+        P['t'] = first['out']
+    else:
+        first = plan.pop(0)(Hh, rng)
+    if first is not None:
+        Hh.plan = plan
+    return first
+
+
+@g('plan_gram')
+def _(Hh, rng):
+    """t -> conj(t) -> tensordot over all legs but one: a square matrix with contractible legs and qtotal 0
+    -> [transposition] -> eigh / eig / expm / svd / pinv -> step trusting the result"""
+    n = pick(Hh, rng, lambda a: a.rank >= 2 and 0 < size(a) <= 400 and has_blocks(a) and min(a.shape) <= 12)
+    if not n:
+        return None
+    a = Hh.env[n]
+    keep = rng.choice([i for i in range(a.rank) if a.shape[i] <= 12])
+    P = Hh.protect = dict(t=n, c=Hh.fresh())
+    others = [i for i in range(a.rank) if i != keep]
+    rng.shuffle(others)
+
+    def p_gram(Hh, rng):
+        if n not in Hh.env or P['c'] not in Hh.env:
+            return None
+        P['t'] = Hh.fresh()
+        return dict(op='tensordot', a=n, b=P['c'], out=P['t'], axes=[list(others), list(others)], lab=rng.random() < 0.5)
+
+    ops = ['eigh', 'eigh', 'eig', 'expm', 'svd', 'pinv']
+    Hh.plan = [p_gram] + ([p_disorder(P)] if rng.random() < 0.5 else []) + [p_factor(P, ops), p_consume(P)]
+    return dict(op='conj', a=n, out=P['c'])
 
 
 @g('malformed')
